@@ -388,6 +388,52 @@ Proof. vm_compute. reflexivity. Qed.
 Example check_state_rejects_observation : nth 3 (check_state tol9 pin_p pin_st (OStep [[3]] [2] [true]) (pin_ck 5 2 [4])) true = false.
 Proof. vm_compute. reflexivity. Qed.
 
+(* a wrong hint for the return statistics is rejected even when the returned reward is consistent with it; a sub-environment that is
+   not done carries no terminal observation (None) and is accepted *)
+Example check_state_rejects_reward_hint :
+  check_state tol9 pin_p pin_st (OStep [[3]] [2] [true])
+    (mk_ck [Some (0, 1, eps_default, 1)] (0, 1, eps_default, 2) [0] [[3]] [Some ([5], [5])] [[3]] [1] [[3]] [2] [2])
+  = [true; true; true; true; false; true; true].
+Proof. vm_compute. reflexivity. Qed.
+Definition pin_st2 : vn := vn_op update_red Qred pin_p (vn_init pin_p 1 false true true) (OStep [[3]] [2] [false]).
+Example check_state_accepts_not_done :
+  check_state tol9 pin_p pin_st2 (OStep [[3]] [2] [false])
+    (mk_ck [Some (0, 1, eps_default, 1)] (0, 1, eps_default, 1) [0] [[3]] [None] [[3]] [2] [[3]] [2] [2])
+  = [true; true; true; true; true; true; true].
+Proof. vm_compute. reflexivity. Qed.
+
+(* the original observation / reward (get_original_obs, get_original_reward) must be the raw values: wrong ones are rejected; a reset carries no reward *)
+Example check_state_rejects_original_obs :
+  nth 6 (check_state tol9 pin_p pin_st (OStep [[3]] [2] [true])
+           (mk_ck [Some (0, 1, eps_default, 1)] (0, 1, eps_default, 1) [0] [[3]] [Some ([5], [5])] [[3]] [2] [[4]] [2] [2])) true = false /\
+  nth 6 (check_state tol9 pin_p pin_st (OStep [[3]] [2] [true])
+           (mk_ck [Some (0, 1, eps_default, 1)] (0, 1, eps_default, 1) [0] [[3]] [Some ([5], [5])] [[3]] [2] [[3]] [9] [2])) true = false.
+Proof. vm_compute. split; reflexivity. Qed.
+Definition pin_st3 : vn := vn_op update_red Qred pin_p (vn_init pin_p 1 false true true) (OReset [[3]]).
+Example check_state_accepts_reset :
+  check_state tol9 pin_p pin_st3 (OReset [[3]]) (mk_ck [Some (0, 1, eps_default, 1)] (0, 1, eps_default, 1) [0] [[3]] [] [[3]] [] [[3]] [] [])
+  = [true; true; true; true; true; true; true].
+Proof. vm_compute. reflexivity. Qed.
+(* a hint that is off by 1e-3 is rejected although the returned observation is consistent with it (tolerance 4*tol + 1e-8) *)
+Example check_state_rejects_obs_hint :
+  nth 3 (check_state tol9 pin_p pin_st (OStep [[3]] [2] [true])
+           (mk_ck [Some (0, 1, eps_default, 1001 # 1000)] (0, 1, eps_default, 1) [0] [[3000 # 1001]] [Some ([5], [5000 # 1001])] [] [2] [[3]] [2] [2])) true = false.
+Proof. vm_compute. reflexivity. Qed.
+(* statistics: every component of every channel is compared *)
+Example stats_pins :
+  rms_close tol9 tol9 (mk_rms 1 2 3) 1 2 3 = true /\ rms_close tol9 tol9 (mk_rms 1 2 3) 0 2 3 = false /\
+  rms_close tol9 tol9 (mk_rms 1 2 3) 1 0 3 = false /\ rms_close tol9 tol9 (mk_rms 1 2 3) 1 2 0 = false /\
+  stats_ok tol9 [mk_rms 1 2 3; mk_rms 4 5 6] [Some (1, 2, 3, 0); Some (4, 5, 6, 0)] = true /\
+  stats_ok tol9 [mk_rms 1 2 3; mk_rms 4 5 6] [Some (1, 2, 3, 0); Some (4, 5, 7, 0)] = false /\
+  stats_ok tol9 [mk_rms 1 2 3; mk_rms 4 5 6] [Some (0, 2, 3, 0); Some (4, 5, 6, 0)] = false /\
+  stats_ok tol9 [mk_rms 1 2 3; mk_rms 4 5 6] [None; Some (4, 5, 6, 0)] = true /\ stats_ok tol9 [mk_rms 1 2 3] [] = false.
+Proof. repeat split. Qed.
+(* the tolerances themselves: just inside / just outside *)
+Example tolerance_pins :
+  close5 1 (1 + (1 # 100000)) = true /\ close5 1 (1 + (15 # 1000000)) = false /\ close5 0 (1 # 1000000) = true /\ close5 0 (15 # 10000000) = false /\
+  rms_close tol9 tol9 (mk_rms 1 1 1) (1 + (15 # 10000000000)) 1 1 = true /\ rms_close tol9 tol9 (mk_rms 1 1 1) (1 + (3 # 1000000000)) 1 1 = false.
+Proof. repeat split. Qed.
+
 Example all2_pins :
   all2 Qeq_bool [1; 2] [1; 2] = true /\ all2 Qeq_bool [1; 2] [1; 3] = false /\ all2 Qeq_bool [1; 2] [2; 2] = false /\
   all2 Qeq_bool [1] [1; 2] = false /\ all2 Qeq_bool [1; 2] [1] = false /\ all2 Qeq_bool [] [] = true.
@@ -396,7 +442,8 @@ Example hints_ok_pins :
   hints_ok tol9 0 [] [] = true /\ hints_ok tol9 0 [rms_init eps_default] [Some (0, 1, 1, 1)] = true /\
   hints_ok tol9 0 [rms_init eps_default] [Some (0, 1, 1, 2)] = false /\ hints_ok tol9 0 [rms_init eps_default] [None] = true.
 Proof. repeat split. Qed.
-Example sqrt_hint_pins : sqrt_hint_ok tol9 3 9 0 = true /\ sqrt_hint_ok tol9 3 8 0 = false /\ sqrt_hint_ok tol9 (-3) 9 0 = false.
+Example sqrt_hint_pins : sqrt_hint_ok tol9 3 9 0 = true /\ sqrt_hint_ok tol9 3 8 0 = false /\ sqrt_hint_ok tol9 (-3) 9 0 = false /\
+  sqrt_hint_ok tol9 3 8 1 = true /\ sqrt_hint_ok tol9 3 10 1 = false.
 Proof. repeat split. Qed.
 Example norm_unvec_pins :
   norm_unvec pin_p true [false; true] [rms_init 1; mk_rms 2 1 1] [1; 3] [5; 5] = [5; 5 * 3 + 2].
